@@ -103,6 +103,7 @@ type c3Net struct {
 	nm, nh   int
 	nd, nc   int
 	nt       int
+	cancel   context.CancelFunc // cancels the context PullModel was called with
 	dying    atomic.Bool
 	countOut string // child mode: counters are rewritten here after every request
 }
@@ -152,7 +153,8 @@ func c3BytesBody(b []byte) io.ReadCloser { return io.NopCloser(bytes.NewReader(b
 var errC3Reset = errors.New("read: connection reset by peer (RESET)")
 
 type c3Body struct {
-	data []byte
+	cancel context.CancelFunc
+	data   []byte
 	end  string
 	ctx  context.Context
 	pos  int
@@ -169,6 +171,12 @@ func (b *c3Body) Read(p []byte) (int, error) {
 		return 0, io.ErrUnexpectedEOF
 	case "reset":
 		return 0, errC3Reset
+	case "cancel": // the caller of PullModel gives up here; the read then ends when the download is cancelled
+		if b.cancel != nil {
+			b.cancel()
+		}
+		<-b.ctx.Done()
+		return 0, b.ctx.Err()
 	case "stall":
 		select {
 		case <-b.ctx.Done():
@@ -328,7 +336,7 @@ func (n *c3Net) RoundTrip(req *http.Request) (*http.Response, error) {
 		if r.cut >= 0 && r.cut < len(body) {
 			body = body[:r.cut]
 		}
-		return c3Resp(req, status, nil, &c3Body{data: body, end: r.end, ctx: req.Context()}), nil
+		return c3Resp(req, status, nil, &c3Body{data: body, end: r.end, ctx: req.Context(), cancel: n.cancel}), nil
 	}
 	return nil, errors.New("TOKNET unknown endpoint " + req.URL.String())
 }
@@ -563,6 +571,8 @@ func c3Classify(err error) string {
 		return "err:max-retries"
 	case errors.Is(err, errDigestMismatch):
 		return "err:digest-mismatch"
+	case errors.Is(err, context.Canceled):
+		return "err:canceled"
 	case errors.Is(err, context.DeadlineExceeded):
 		return "err:deadline"
 	case errors.Is(err, http.ErrNoLocation):
@@ -653,7 +663,10 @@ func c3RunAttempt(t *testing.T, c *c3Case, a *c3Attempt, models string, countOut
 					res.class = c3PanicSite(string(buf))
 				}
 			}()
-			err := PullModel(context.Background(), c3ModelName(c.name), &registryOptions{}, func(r api.ProgressResponse) {
+			ctx, cancel := context.WithCancel(context.Background())
+			defer cancel()
+			net.cancel = cancel
+			err := PullModel(ctx, c3ModelName(c.name), &registryOptions{}, func(r api.ProgressResponse) {
 				if len(res.statuses) == 0 || res.statuses[len(res.statuses)-1] != r.Status {
 					res.statuses = append(res.statuses, r.Status)
 				}
